@@ -1152,3 +1152,5 @@ B('C20', 'separator appended to whatever line comes last', 'imperative/com.py',
   "            for line in reversed(lines):\n                if line['ty'] == 'com':\n                    line['str'] += ';'\n                    return\n            raise AssertionError", "            lines[-1]['str'] += ';'", 'C20.P9', 'add_str')
 B('C11', 'datatype constructor recorded without comparing names and argument types', 'server/items.py',
   "                if len(constr['args']) != len(argT):\n                    raise ItemException(\"Datatype %s: %s has %d arguments, %d names are given\" % (\n                        self.name, constr['name'], len(argT), len(constr['args'])))\n", "", 'C11.D11', 'names-match-argument-types')
+B('C16', 'one-term constraint with coefficient zero dropped', 'prover/simplex.py',
+  "                elif lower_bound > 0: # 0 * x >= b with b > 0 does not hold\n                    self.false_ineq = ineq\n", "", 'C16.O11', 'coefficient-cases')
